@@ -54,6 +54,7 @@ type Func struct {
 	NoReturn    bool
 	Opaque      bool // never auto-inline; without ensures results are havocked
 	NoFrame     bool // frame obligations are not generated (top-level actions without verified callers)
+	AppendFacts bool
 	Callbacks   map[string]*Callback
 	Sites       map[string][]*Clause // "callee.K" -> assertions placed at that call site
 	Props       []string
@@ -127,7 +128,7 @@ var keywords = map[string]bool{
 	"trusted": true, "safe": true, "pure": true, "property": true, "mode": true, "noreturn": true, "opaque": true,
 	"forall": true, "assume": true, "let": true, "assert": true, "foreach": true, "results": true,
 	"implements": true, "sets": true, "note": true, "noframe": true, "callback": true, "site": true,
-	"lenbound": true,
+	"lenbound": true, "appendfacts": true,
 }
 
 type rawLine struct {
@@ -411,6 +412,13 @@ func Parse(path, src string) (*File, error) {
 				return nil, errf("noframe outside func")
 			}
 			curF.NoFrame = true
+		case "appendfacts":
+			// in bit-vector mode, describe the contents of append(dst, src...) by quantified facts (always done
+			// in int mode; off by default in bit-vector mode where most functions do not need them)
+			if curF == nil {
+				return nil, errf("appendfacts outside func")
+			}
+			curF.AppendFacts = true
 		case "transparent", "trusted", "safe", "pure", "noreturn", "opaque":
 			if curF == nil {
 				return nil, errf("%s outside func", c.kw)
